@@ -26,3 +26,9 @@ impl Zeroconf {
     #[verifier::external_body]
     pub fn send_cmd_to_self(&self, cmd: Command) -> (r: Result<()>) { unimplemented!() }
 }
+// `map.values().map(|info| info.get_fullname().to_string()).collect::<Vec<String>>()`: the registered (not lower-cased)
+// full names in iteration order (a variant of the key collection in cleanup that a seeded change used)
+#[verifier::external_body]
+pub fn vx_fullnames_vec(m: &HashMap<String, ServiceInfo>) -> (r: Vec<String>)
+    ensures r@.len() == m.entries().len(), forall|i: int| 0 <= i < r@.len() ==> (#[trigger] r@[i])@ == m.entries()[i].1.fullname(),
+{ unimplemented!() }
